@@ -1494,6 +1494,11 @@ func (c *httpChecker) serve(idx int, hc *httpCase, over bool) {
 	if hc.encoding != nil {
 		req.Header.Set("Content-Encoding", *hc.encoding)
 	}
+	if idx%4 == 1 || idx%4 == -1 {
+		// the handler is told what a chunked upload tells it: a body of unknown length
+		req.ContentLength = -1
+		req.TransferEncoding = []string{"chunked"}
+	}
 	w := &statusWriter{hdr: http.Header{}}
 	maps0, events0 := c.h.counts()
 	panicked := guard(r, "http-panic", mk, func() { c.router.ServeHTTP(w, req) })
@@ -1526,25 +1531,24 @@ func (c *httpChecker) serve(idx int, hc *httpCase, over bool) {
 	if !over {
 		return
 	}
-	hreq, err := http.NewRequest(hc.method, c.ts.URL+hc.path, bytes.NewReader(hc.body))
-	if err != nil {
-		return
+	n := idx / 10
+	if n < 0 {
+		n = -n
 	}
-	if hc.encoding != nil {
-		hreq.Header.Set("Content-Encoding", *hc.encoding)
-	}
+	mode := transferModes[n%len(transferModes)]
 	tcp0 := time.Now()
-	resp, err := c.client.Do(hreq)
+	status, timedOut, err := transfer(c.client, c.ts.URL, hc, mode)
 	c.tcpTime += time.Since(tcp0)
 	r.Event("http_requests_over_tcp", 1)
-	if err != nil {
-		r.Violation("http-connection-without-status", fmt.Sprintf("%s %s (%s, Content-Encoding %s) over a real server: %v", hc.method, hc.path, hc.kind, encName(hc.encoding), err), mk())
-		return
-	}
-	_, _ = io.Copy(io.Discard, resp.Body)
-	_ = resp.Body.Close()
-	if !panicked && resp.StatusCode != w.code {
-		r.Violation("http-status-differs-over-tcp", fmt.Sprintf("%s %s (%s): status %d through ServeHTTP, %d over a real server", hc.method, hc.path, hc.kind, w.code, resp.StatusCode), mk())
+	r.Event("http_over_tcp_"+mode, 1)
+	switch {
+	case timedOut:
+		r.Inconclusive("http-over-tcp-watchdog:" + mode)
+	case err != nil:
+		r.Violation("http-connection-without-status", fmt.Sprintf("%s %s (%s, Content-Encoding %s, body sent %s) over a real server: %v", hc.method, hc.path, hc.kind, encName(hc.encoding), mode, err), mk())
+	case status == 0:
+	case !panicked && (mode == "length" || mode == "chunked") && status != w.code:
+		r.Violation("http-status-differs-over-tcp", fmt.Sprintf("%s %s (%s, body sent %s): status %d through ServeHTTP, %d over a real server", hc.method, hc.path, hc.kind, mode, w.code, status), mk())
 	}
 }
 
@@ -1690,8 +1694,11 @@ func TestCheck(t *testing.T) {
 	t2 := time.Now()
 	phaseHTTP(r, -1)
 	t3 := time.Now()
+	phaseServer(r, -1)
+	t4 := time.Now()
 	phaseE2E(r, -1) // last: a crash further down the pipeline kills this process
-	r.Extra("phase_e2e_cpu_s", time.Since(t3).Seconds())
+	r.Extra("phase_server_cpu_s", t4.Sub(t3).Seconds())
+	r.Extra("phase_e2e_cpu_s", time.Since(t4).Seconds())
 	// measured cost per phase, summed over the shards (evidence only)
 	r.Extra("phase_lexer_cpu_s", t1.Sub(t0).Seconds())
 	r.Extra("phase_datagram_cpu_s", t2.Sub(t1).Seconds())
@@ -1722,6 +1729,8 @@ func replay(t *testing.T, r *mon.Run, p []byte) {
 			}
 		case "e2e":
 			phaseE2E(r, cs.Index)
+		case "server":
+			phaseServer(r, cs.Index)
 		case "http":
 			c, err := newHTTPChecker(r)
 			if err == nil && len(raw) == 1 {
@@ -1747,6 +1756,8 @@ func replay(t *testing.T, r *mon.Run, p []byte) {
 				phaseHTTP(r, idx)
 			case "e2e":
 				phaseE2E(r, idx)
+			case "server":
+				phaseServer(r, idx)
 			}
 			return
 		}
